@@ -79,6 +79,36 @@ def folded(fn, expr, at_line):
     return False
 
 
+SOURCE_ATTRS = {"name", "string", "representation", "quote"}
+
+
+def source_derived(fn, q, expr, at_line, depth=0):
+    """does the variable side carry text of the source file? (parser module: everything read from ctx is;
+    elsewhere: token fields name/string/representation, text(), or a name assigned from / iterating over such)"""
+    if q.startswith("parser::"):
+        return True
+    for n in ast.walk(expr):
+        if isinstance(n, ast.Attribute) and n.attr in SOURCE_ATTRS:
+            return True
+        if isinstance(n, ast.Call) and isinstance(n.func, ast.Attribute) and n.func.attr in ("text", "group"):
+            return True
+        if isinstance(n, ast.Call) and isinstance(n.func, ast.Name) and n.func.id == "get_as_str":
+            return True
+    if depth >= 2:
+        return False
+    for nm in [n.id for n in ast.walk(expr) if isinstance(n, ast.Name)]:
+        for a in walk_local(fn):
+            if isinstance(a, ast.Assign) and any(isinstance(t, ast.Name) and t.id == nm for t in a.targets) and a.lineno <= at_line:
+                if source_derived(fn, q, a.value, a.lineno, depth + 1):
+                    return True
+            if isinstance(a, (ast.For, ast.comprehension)) and any(isinstance(t, ast.Name) and t.id == nm for t in ast.walk(a.target)):
+                if source_derived(fn, q, a.iter, getattr(a, "lineno", at_line), depth + 1):
+                    return True
+        if nm in {p.arg for p in fn.args.args} and nm in ("name", "char", "symbol", "filename", "write_path", "bk_filename", "path") and not isinstance(fn, ast.Lambda):
+            return True
+    return False
+
+
 def rule_G6(ck):
     repo = ck.repo
     n_src = 0
@@ -115,6 +145,8 @@ def rule_G6(ck):
             ck.instance(("sink", q, text), {"site": q, "comparison": text[:80], "kind": "internal: " + str(reason or CLI_INTERNAL.get(text)) if internal else "source text"}, fn=q)
             if internal:
                 continue
+            if not source_derived(fn, q, var, node.lineno):
+                continue      # a value the code made itself (pattern characters, tags, formats)
             n_src += 1
             if not folded(fn, var, node.lineno):
                 ck.violation(node, f"'{text[:80]}' compares text from the source file with a cased constant without folding case: the upper-case spelling of the same program is treated differently",
